@@ -173,7 +173,9 @@ impl Runner {
                 p
             },
             peers[0],
-            libp2p_swarm::Config::without_executor(),
+            // the step-mode model starts every selected address at once: keep the concurrency factor above the
+            // longest address list a generator produces (<= 12)
+            libp2p_swarm::Config::without_executor().with_dial_concurrency_factor(std::num::NonZeroU8::new(16).unwrap()),
         );
         {
             let mut w = sim.world.lock().unwrap();
@@ -439,6 +441,28 @@ impl Gen {
         }
     }
 
+    /// C08 (Swarm level): dials over many addresses from overlapping sources (opts + behaviour, duplicates,
+    /// /p2p forms, own listen addresses, refused ones) whose transport dials then fail / succeed in any order
+    pub fn next_c08(&self, rng: &mut Rng, r: &Runner) -> Op {
+        let n_dials = r.sim.tstate.lock().unwrap().dials.len();
+        match rng.below(100) {
+            0..=39 => {
+                let peer = if rng.chance(1, 8) { None } else { Some(1 + rng.usize(3)) };
+                let addrs = if peer.is_none() { vec![self.addr_variant(rng, None)] } else { self.addr_list(rng, peer, 5) };
+                let mut beh_addrs = if rng.chance(2, 3) { self.addr_list(rng, peer, 3) } else { vec![] };
+                if !addrs.is_empty() && rng.chance(1, 2) {
+                    beh_addrs.push(rng.pick(&addrs).clone());
+                }
+                let refuse = if rng.chance(1, 5) { vec![self.addr_variant(rng, peer)] } else { vec![] };
+                Op::Dial { via_beh: rng.chance(1, 6), cond: 0, peer, addrs, extend: peer.is_some() && rng.chance(3, 4), beh_addrs, deny: false, refuse }
+            }
+            40..=74 => Op::Fail { k: if n_dials == 0 { 0 } else { rng.usize(n_dials + 1) } },
+            75..=89 => Op::Resolve { k: if n_dials == 0 { 0 } else { rng.usize(n_dials + 1) }, peer: 1 + rng.usize(3), deny: false },
+            90..=94 => Op::NewAddr { a: rng.pick(&self.addrs).clone() },
+            _ => Op::Disconnect { peer: 1 + rng.usize(3) },
+        }
+    }
+
     fn next_raw(&self, rng: &mut Rng, r: &Runner) -> Op {
         let n_dials = r.sim.tstate.lock().unwrap().dials.len();
         let n_conns = r.sim.world.lock().unwrap().conn_names.len();
@@ -593,10 +617,15 @@ fn dial_enum(args: &Args, out: &mut Out) {
     }
 }
 
+/// header token marking Swarm-level cases of a property whose driver also has a component-level machine (C08)
+fn sw_tag(args: &Args) -> &'static str {
+    if args.prop == "C08" { " sw=1" } else { "" }
+}
+
 pub fn run(args: &Args, out: &mut Out) {
     if let Some(cases) = args.replay_cases() {
         for (i, (_, ops)) in cases.iter().enumerate() {
-            out.case(i as u64, &format!("replay nt=1 peers={}", peers_tok()));
+            out.case(i as u64, &format!("replay nt=1 peers={}{}", peers_tok(), sw_tag(args)));
             let mut r = Runner::new();
             for t in ops {
                 if t[0] == "order" {
@@ -614,14 +643,14 @@ pub fn run(args: &Args, out: &mut Out) {
     if args.prop == "C04" {
         dial_enum(args, out);
     }
-    let n = args.n(1500, 15_000);
+    let n = if args.prop == "C08" { args.n(500, 6_000) } else { args.n(1500, 15_000) };
     for i in 0..n {
         let mut rng = Rng::for_case(args.seed, i);
         let len = 5 + rng.usize(40);
-        out.case(i, &format!("script nt=1 len={len} peers={}", peers_tok()));
+        out.case(i, &format!("script nt=1 len={len} peers={}{}", peers_tok(), sw_tag(args)));
         let mut r = Runner::new();
         for _ in 0..len {
-            let op = g.next(&mut rng, &r);
+            let op = if args.prop == "C08" { g.next_c08(&mut rng, &r) } else { g.next(&mut rng, &r) };
             r.step(&op, out);
         }
         out.end();
